@@ -434,14 +434,14 @@ def plan(tier):
                       bounds='heap of <= 3 entries (alive or emptied) before the step, <= 8 sleeps per history, 3 identifiers',
                       outside='states with more than 3 heap entries; two consecutive steps from a state other than those that are themselves shortest histories'))
     # heap order: k sleeps in every arrival order, then one get_expired per time value in ascending order
-    ov = order_vectors(6, 12 if tier == 'quick' else 1) + (order_vectors(5, 1) if tier != 'quick' else []) + (order_vectors(7, 12) if tier != 'quick' else [])
+    ov = order_vectors(6, 12 if tier == 'quick' else 1) + (order_vectors(5, 1) if tier != 'quick' else [])
     units.append(dict(engine='e1', name='h_order', tu='C12.cpp', defines=['C12_MANUAL'], entry='h_manual', unwind=200, vectors=ov,
                       concrete=[([0, 12, 0, 0, 0, 0, 0, 3, 0, 0, 1, 0, 0, 2, 0, 0, 4, 0, 0, 5, 4, 0, 4, 1, 4, 2, 4, 3, 4, 4, 4, 5], [])],
                       space='manual mode, heap order: k pending sleeps with pairwise different time points scheduled in a given arrival order (a permutation of 0..k-1), then get_expired(now) for now = 0, 1, .. k-1: '
                             'each call must hand out exactly the sleep that is due; %s' %
                             ('k = 6, every 12th of the 720 arrival orders (enumeration order of itertools.permutations, offset 0)' if tier == 'quick' else
-                             'k = 5 and k = 6: every arrival order; k = 7: every 12th of the 5040 arrival orders'),
-                      data='none symbolic', bounds='<= 7 pending sleeps, distinct time points, one identifier',
+                             'k = 5 and k = 6: every arrival order'),
+                      data='none symbolic', bounds='<= 6 pending sleeps, distinct time points, one identifier',
                       outside='more pending sleeps; ties; cancels interleaved with a deep heap (h_cover has them for <= 3 entries)'))
     L = 4 if tier == 'quick' else 6
     units.append(dict(engine='e1', name='h_interval', tu='C12.cpp', defines=['C12_INTERVAL'], entry='h_interval', unwind=10, vectors=interval_vectors(L, 3 if tier == 'quick' else 5),
